@@ -25,13 +25,17 @@ import (
 
 // C15: end-to-end layout: cmap, feature selection, widths and kerning compose right.
 
+// script / language systems of the FindLookups enumerations: two non-default language systems under one
+// script (with and without that script's default system) make the fallback choice visible
+var c15Tags = []string{"und-Zzzz-x-dflt", "und-Latn-x-latn", "tr-Latn-x-latn-trk", "de-Latn-x-latn-deu", "und-Cyrl-x-cyrl"}
+
 func c15FindLookups(r *run.Run) {
-	tags := []string{"und-Zzzz-x-dflt", "und-Latn-x-latn", "tr-Latn-x-latn-trk", "und-Cyrl-x-cyrl"}
+	tags := c15Tags
 	langs := []language.Tag{language.Und, language.English, language.German, language.Turkish, language.Japanese, language.Russian}
 	features := []*gtab.Feature{{Tag: "liga", Lookups: []gtab.LookupIndex{2, 0}}, {Tag: "kern", Lookups: []gtab.LookupIndex{1}}, {Tag: "locl", Lookups: []gtab.LookupIndex{3, 3, 1}}, {Tag: "smcp", Lookups: []gtab.LookupIndex{4, 9}}}
 	switches := []map[string]bool{nil, {}, {"liga": true}, {"liga": false, "kern": true}, {"liga": true, "kern": true, "locl": true, "smcp": true}, {"zzzz": true}}
 	r.Explore(explore.Config{Name: "C15.findlookups"},
-		"FindLookups: all script lists over the subsets of {DFLT, latn, latn/TRK, cyrl} x required feature in {none, 0, 2, out of range} x optional lists x 6 feature-switch maps x 6 language tags: ascending, duplicate-free, in range, equal to required + enabled optional lookups of ONE language system of the list, Turkish picks latn/TRK when present, and 25 repeated calls agree",
+		"FindLookups: all script lists over the subsets of {DFLT, latn, latn/TRK, latn/DEU, cyrl} x required feature in {none, 0, 2, out of range} x optional lists x 6 feature-switch maps x 6 language tags: ascending, duplicate-free, in range, equal to required + enabled optional lookups of ONE language system of the list, Turkish picks latn/TRK when present, and 4 repeated calls agree (every map iteration order: C15.map-order-findlookups)",
 		func(c *explore.Ctx) {
 			info := &gtab.Info{ScriptList: gtab.ScriptListInfo{}, FeatureList: features}
 			for i := 0; i < 5; i++ {
@@ -117,7 +121,7 @@ func c15FindLookups(r *run.Run) {
 					c.Fail("C15.findlookups", "language match", "Turkish with a latn/TRK system present: got %v, the TRK system gives %v", got, expect(fe))
 				}
 			}
-			for k := 0; k < 25; k++ {
+			for k := 0; k < 4; k++ {
 				if again := info.FindLookups(lang, sw); fmt.Sprint(again) != fmt.Sprint(got) {
 					c.FailObserved("C15.findlookups", "same on every call", "FindLookups(%v, %v) returned %v and then %v (systems %v)", lang, sw, got, again, used)
 					break
@@ -605,7 +609,7 @@ func c15Ligatures(r *run.Run) {
 func init() {
 	Register("C15", func(r *run.Run) {
 		r.Rule = "bounded exhaustive enumeration of script lists / feature switches / languages, of generator fonts x all short strings, of kern tables and of ligature-character subsets; reference pipeline built from the reference shaper and specification readers"
-		r.Assume = []string{"lookup selection inside the layout comparison uses the library's FindLookups (checked separately)", "determinism across calls: 25 repetitions inside C15.findlookups, and every map iteration order of the seam's alphabet in C15.map-order*"}
+		r.Assume = []string{"lookup selection inside the layout comparison uses the library's FindLookups (checked separately)", "determinism across calls: 4 repetitions inside C15.findlookups, and every map iteration order of the seam's alphabet in C15.map-order*"}
 		c15FindLookups(r)
 		c15Layout(r)
 		c15CmapSelection(r)
